@@ -144,7 +144,10 @@ def _run_one(job):
             ast.parse(new_src)
         except Exception:
             return "skip"
-        prog = core.Program(overlay={relpath: new_src})
+        # the mutant goes through the same pipeline as a real change: first the comparison with the reference (a mutant that
+        # were wrongly judged equivalent would be analysed in reference form and survive), then the rules
+        from . import refsub
+        prog, _report = refsub.canonical_program(overlay={relpath: new_src}, use_cache=False)
         if prog.parse_errors:
             return "skip"
         mod = importlib.import_module("vsa.rules.%s" % pid.lower())
